@@ -107,7 +107,9 @@ def core3Sample : Core3.Func :=
                     .clauses true [(false, .ptr (.int 8) 0, .const .null)], []⟩],
       ⟨none, 86, [.tyval (.struct false (.cons (.ptr (.int 8) 0) (.cons (.int 32) .nil))) (.loc (.id 7))], .none, []⟩⟩],
    -- `define internal dso_local hidden dllexport fastcc i32 @f(…)`
-   [3, 11, 14, 16, 19]⟩
+   [3, 11, 14, 16, 19],
+   -- `… @f(…) unnamed_addr nounwind cold section "a\22b" align 8 gc "g" {`
+   { unnamed := some 0, attrs := [30, 3], sect := [97, 34, 98], align := 8, gc := [103] }⟩
 
 example : Core3.wf core3Sample = true := by decide +kernel
 example : Core3.mdWF IntLit.hexChoice core3Sample = true := by decide +kernel
